@@ -47,4 +47,19 @@ CLAIMS = {
         "note": TRUST,
         "technique": "who-may-write inventory + MIR value-origin min/max selection rules",
     },
+    "C03": {
+        "text": "Partial, structural: decides on MIR that the semi-naive delta decomposition built in Query::add_rules_from_cached has the only shape that loses no match and duplicates none (constraints are exactly GeConst/LtConst on mid_ts.to_value(); ts column and atom id come from the same atom; one GeConst focus per variant pushed after clear(); LtConst only over atoms[0..focus]); that run_rules_impl builds the variants from the old last_run_at before storing next_ts, that callers pass a next_ts() read with no inc_ts before the run, and that last_run_at has no other writers; that every row re-inserted by a table rebuild/refresh (5 sites) is stamped with next_ts in its sort column on the sort_by=Some path; that the timestamp advances after every merge before control returns. Does NOT decide equality of the semi-naive and naive databases for all programs.",
+        "note": TRUST,
+        "technique": "MIR value-origin pairing rules, dominance and path rules on the timestamp protocol",
+    },
+    "C08": {
+        "text": "Partial, structural: decides from rustc type facts + MIR which interior-mutable state is physically shared between an e-graph and its clone / pushed snapshot: an inventory over the ADT field graph from egglog::EGraph (through generics and Box<dyn Trait> -> local impls) of every Arc/Rc/&/raw-pointer handle whose pointee is not Freeze (rustc's own query), classified shared/fresh from the owner's Clone body, must equal a frozen table with one reason per entry; manual Clone impls must build pending_state, buffered_writes and the index caches fresh; pop carries over exactly {overall_run_report, parser.symbol_gen}; ActionRegistry::lookup_table has only liveness-filtered or listed callers. Reports F5 (action_registry shared by Clone) and F6 (SchedulerRuleInfo.matches shared while CollectMatches deep-copies) as known findings, both reproduced against the real code. Does NOT decide output equality of P;push;Q;pop;R and P;R.",
+        "note": TRUST + " The inventory rule can fire on a new, harmless shared handle: each entry is one named symbol with a reason (DESIGN.md §2.6).",
+        "technique": "ownership/aliasing inventory over the type-checked ADT field graph (Freeze query) + Clone-body value-origin analysis + who-may-call",
+    },
+    "C18": {
+        "text": "Partial, structural: decides on MIR the bookkeeping obligations of step_rules_with_scheduler: every field emptied with mem::take is restored on every normal return; the scheduler's query rule is built with include_subsumed=false; query run -> scheduler decision -> flush_updates -> action run form a dominance chain; instantiate's result is stored back as the residual, instantiate returns the original vector (or empty), sorts and dedups `chosen` before any swap/truncate and inserts chosen rows first; query_report.updated := false and action_report.can_stop = !updated && scheduler.can_stop(). F6 (C08) also breaks this property and is listed there. Does NOT decide fairness/confluence outcomes nor canonicity of residual raw values.",
+        "note": TRUST,
+        "technique": "MIR pairing (take/restore path rule), dominance chain, value-origin rules",
+    },
 }
